@@ -4,7 +4,7 @@
    packed rows perform are pointwise folds of the values addressed to a pixel). *)
 From Coq Require Import QArith.
 From HS Require Import Prelude Cov Map Spec Ops Spec2 Params AtFold MapProofs UpdateProofs HistoryProofs
-     WideProofs WideMaps Exec Exec2 ExecProofs.
+     Packed PackedOps WideProofs WideMaps WideRow WideBytes Exec Exec2 ExecProofs.
 Open Scope Z_scope.
 
 (* the packed value of a bit list has exactly the listed bits *)
@@ -95,6 +95,44 @@ Example C13_hypotheses_satisfiable :
   k_valid k (read cellv dcell m2 40) = true /\ k_valid k (read cellv dcell m2 6) = false.
 Proof. vm_compute. repeat split; reflexivity. Qed.
 
+(* ---- the stored bytes: a wide-mask cell is a row of uint8, the model's cell its little-endian integer ---- *)
+
+(* bit k of the integer is bit (k mod 8) of byte (k / 8) of the row: byte boundaries are nothing special *)
+Theorem C13_integer_bit_is_row_bit :
+  forall (l : list Z) k, bytes_ok l -> 0 <= k -> Z.testbit (le_int l) k = bit l k.
+Proof. exact testbit_le_int. Qed.
+
+(* the row built from a bit list (np.packbits of the boolean array with the listed positions True) has exactly
+   the listed bits, and its integer is the packed value of the list *)
+Theorem C13_row_of_a_bit_list_has_exactly_the_listed_bits :
+  forall bits width k, 0 <= k < 8 * width -> bit (bitvals_to_packed bits width) k = existsb (Z.eqb k) bits.
+Proof. exact bitvals_to_packed_bit. Qed.
+
+Theorem C13_row_of_a_bit_list_is_its_packed_value :
+  forall bits width, 0 <= width -> (forall b, In b bits -> 0 <= b < 8 * width) ->
+    le_int (bitvals_to_packed bits width) = bits_val bits.
+Proof. exact bitvals_row_is_bits_val. Qed.
+
+(* NumPy's bytewise | and & on rows are | and & of the integers *)
+Theorem C13_bytewise_or_of_rows_is_set_union :
+  forall (a b : list Z), zlen a = zlen b -> bytes_ok a -> bytes_ok b ->
+    bytes_ok (zip_with Z.lor a b) /\ le_int (zip_with Z.lor a b) = Z.lor (le_int a) (le_int b).
+Proof. exact rows_or_is_integer_or. Qed.
+
+Theorem C13_bytewise_and_of_rows_is_set_intersection :
+  forall (a b : list Z), zlen a = zlen b -> bytes_ok a -> bytes_ok b ->
+    bytes_ok (zip_with Z.land a b) /\ le_int (zip_with Z.land a b) = Z.land (le_int a) (le_int b).
+Proof. exact rows_and_is_integer_and. Qed.
+
+(* a pixel is valid iff some byte of its row is non-zero iff its integer is non-zero *)
+Theorem C13_row_is_zero_iff_its_integer_is_zero :
+  forall (l : list Z), bytes_ok l -> (le_int l = 0 <-> forall j, 0 <= j < zlen l -> znth 0 l j = 0).
+Proof. exact row_zero_iff_integer_zero. Qed.
+
+Example C13_rows_hypotheses_satisfiable :
+  bitvals_to_packed [0; 9; 17] 3 = [1; 2; 2] /\ le_int [1; 2; 2] = bits_val [0; 9; 17].
+Proof. exact wide_bytes_example. Qed.
+
 Print Assumptions C13_packed_value_is_the_bit_set.
 Print Assumptions C13_set_bits_is_union.
 Print Assumptions C13_clear_bits_is_difference.
@@ -107,3 +145,10 @@ Print Assumptions C13_and_update_is_intersection_per_pixel.
 Print Assumptions C13_set_bits_pix_on_a_map.
 Print Assumptions C13_clear_bits_pix_on_a_map.
 Print Assumptions C13_hypotheses_satisfiable.
+Print Assumptions C13_integer_bit_is_row_bit.
+Print Assumptions C13_row_of_a_bit_list_has_exactly_the_listed_bits.
+Print Assumptions C13_row_of_a_bit_list_is_its_packed_value.
+Print Assumptions C13_bytewise_or_of_rows_is_set_union.
+Print Assumptions C13_bytewise_and_of_rows_is_set_intersection.
+Print Assumptions C13_row_is_zero_iff_its_integer_is_zero.
+Print Assumptions C13_rows_hypotheses_satisfiable.
